@@ -4,7 +4,7 @@ CONSTANTS
   Sdf = 2
   Eps = 4
   Sumdf = 2
-  MaxSamples = 70
+  MaxSamples = 40
   Sizes = {1, 3, 4, 9}
 INVARIANT Inv
 CHECK_DEADLOCK FALSE
